@@ -3,7 +3,7 @@
    checked model must report an out-of-range access). *)
 From Coq Require Import ZArith List Bool QArith PrimFloat.
 Import ListNotations.
-Require Import PV.Base.Ops PV.Model.Relax PV.Model.RelaxChk PV.Model.RelaxRun PV.Model.GraphAlg PV.Model.Split PV.Model.SplitChk.
+Require Import PV.Base.Ops PV.Model.Relax PV.Model.RelaxChk PV.Model.RelaxRun PV.Model.GraphAlg PV.Model.Split PV.Model.SplitChk PV.Model.Aggregate PV.Model.AggChk.
 Open Scope Z_scope.
 
 Section Run.
@@ -34,6 +34,19 @@ Definition rs_chk_case (c : Z * list (list Z) * option (list Z)) : bool :=
   let '(n, ls, expected) := c in
   match rs_cf_splitting_chk n (zln ls 0) (zln ls 1) (zln ls 2) (zln ls 3) (zln ls 4), expected with
   | Some r, Some ex => list_eqb Z.eqb r ex
+  | None, None => true
+  | _, _ => false
+  end.
+
+(* aggregation twins: (kind (0 standard, 1 naive), n, [Ap; Aj; y0], expected (x, y, count)) *)
+Definition agg_chk_case (c : nat * Z * list (list Z) * option (list Z * list Z * Z)) : bool :=
+  let '(kind, n, ls, expected) := c in
+  let r := match kind with
+           | 0%nat => standard_aggregation_chk n (zln ls 0) (zln ls 1) (zln ls 2)
+           | _ => naive_aggregation_chk n (zln ls 0) (zln ls 1) (zln ls 2)
+           end in
+  match r, expected with
+  | Some (x, y, k), Some (x', y', k') => list_eqb Z.eqb x x' && list_eqb Z.eqb y y' && (k =? k')
   | None, None => true
   | _, _ => false
   end.
